@@ -21,14 +21,15 @@ from .judge import judge
 
 NONE = -9999
 FORMATS = [(1, 1), (2, 1), (2, 2), (4, 1), (1, 3), (4, 2), (4, 3)]
-KIND2INPUT = {"buffer": "source", "raw": "raw_lazy", "wav": "wav_lazy", "stdin": "stdin"}
+KIND2INPUT = {"buffer": "source", "raw": "raw_lazy", "wav": "wav_lazy", "stdin": "stdin", "stdin_pipe": "stdin_pipe"}
 TIERS = {"quick": dict(MaxN=4), "thorough": dict(MaxN=7)}
 
 
-def make_source(kind, n, sr, sw, ch, tmpdir, tag="s"):
+def make_source(kind, n, sr, sw, ch, tmpdir, tag="s", pipe=False):
     from auditok import io as aio
     data = make_audio(n, sw, ch)
-    inp, kw, cleanup = make_input(KIND2INPUT[kind], data, sr, sw, ch, tmpdir, tag)
+    # standard input is exercised both as an in-memory buffer and as a pipe fed in bursts that ignore sample boundaries
+    inp, kw, cleanup = make_input("stdin_pipe" if (kind == "stdin" and pipe) else KIND2INPUT[kind], data, sr, sw, ch, tmpdir, tag)
     if kind == "buffer":
         return inp, cleanup
     try:
@@ -105,7 +106,7 @@ def replay_transitions(trans, tmpdir):
     for i, t in enumerate(trans):
         kind, n, sr = t["kind"], t["n"], t["sr"]
         sw, ch = FORMATS[i % len(FORMATS)]
-        src, cleanup = make_source(kind, n, sr, sw, ch, tmpdir)
+        src, cleanup = make_source(kind, n, sr, sw, ch, tmpdir, pipe=(i % 2 == 1))
         try:
             pre = t["prev"]
             if kind == "buffer":
@@ -183,7 +184,7 @@ def gen_trace(rng, tier, tmpdir):
     while max_ids(sw, ch) < n + 1:
         sw, ch = rng.choice(FORMATS)
     sr = rng.choice([8, 10, 16, 100, 1000, 8000, 16000, 44100])
-    src, cleanup = make_source(kind, n, sr, sw, ch, tmpdir, "t")
+    src, cleanup = make_source(kind, n, sr, sw, ch, tmpdir, "t", pipe=rng.random() < .5)
     ev = []
     nops = rng.randint(5, 50 if tier == "quick" else 200)
     try:
